@@ -219,4 +219,17 @@ CLAIMS = {
               "blocks (same defect as C03.H2)."),
         technique="static analysis: affine normal forms of the geometry, argument-provenance scan over factory call sites, Boolean/loop forms of the ordering helpers, shared effect rules",
     ),
+    "C11": dict(
+        text=("Claimed in part. Decided statically (necessary conditions of 'flattening removes the nesting only'): apply_flatten_to_self builds a "
+              "fresh graph from the complete listing self.decomposed_operations() with exactly one add_to_graph per listed element and no "
+              "filter, rebinds the graph and returns self on EVERY path (an 'already flat' shortcut is rejected); with the in-place expansion "
+              "of C02.L5 no sub-circuit survives and a second flatten sees the same elements; DeclarativeCircuit.flatten delegates and keeps its "
+              "registry on the flattened structure; the multi-round constructor builds each block with the caller's description, unrolls, "
+              "then flattens, then adds it followed by a barrier, calibration last; re-linking while rebuilding is decided by C01.R6 (one "
+              "node per operation, under its reference, root only after a real empty-channel query)."),
+        note=("NOT decided: identity of listing order, schedule, acquisition indices and exported Stim program before/after flattening -- these "
+              "depend on the layer order of the rebuilt graph (sub-agents observed the unchanged tree deviating for >= 3 data qubits and >= 3 "
+              "cycles; recorded in DESIGN 5b, not decidable here)."),
+        technique="static analysis: loop summary with iteration-domain and exactly-one-emit checks on feasible paths; ordered-effect check of the constructor",
+    ),
 }
